@@ -25,8 +25,16 @@ def run(idx: Index, rep: Report, tier: str) -> None:
     rep.explanation = __doc__.strip()
     # ---------------------------------------------------------------- (1)
     rule1 = "C31.1 T2 plan-returned-only-if-validated"
+    from ..roles import assigned_from_call, with_roles
+
     f = idx.func("engines.interpreted_functions_planner.InterpretedFunctionsPlanner._solve")
     rep.note_function(f.qualname)
+    # roles: the validation result (bound from .validate), the knowledge map (handed to the remover's constructor)
+    roles = {n: "validation_result" for n in assigned_from_call(f.node, "validate")}
+    for c in walk_no_nested(f.node):
+        if isinstance(c, ast.Call) and call_name(c) == "InterpretedFunctionsRemover" and c.args and isinstance(c.args[0], ast.Name):
+            roles[c.args[0].id] = "knowledge"
+    f = with_roles(f, roles)
     cfg = cfg_of(f)
     vals = cfg_nodes_with_call(cfg, "validate")
     if not vals:
@@ -69,6 +77,22 @@ def run(idx: Index, rep: Report, tier: str) -> None:
     rule2 = "C31.2 oversubscription-status-truthful"
     g = idx.func("engines.oversubscription_planner.OversubscriptionPlanner._solve")
     rep.note_function(g.qualname)
+    # roles: the underlying result (bound from engine.solve), the soft goals (bound from ….goals.items()), the
+    # incompleteness flag (a local set to False and later to True), the weight (summed in the subset loop)
+    roles = {n: "res" for n in assigned_from_call(g.node, "solve")}
+    for a in walk_no_nested(g.node):
+        if isinstance(a, ast.Assign) and isinstance(a.targets[0], ast.Name) and any(isinstance(x, ast.Attribute) and x.attr == "goals" for x in ast.walk(a.value)):
+            roles[a.targets[0].id] = "goals"
+    flags_f = {norm(a.targets[0]) for a in walk_no_nested(g.node) if isinstance(a, ast.Assign) and isinstance(a.targets[0], ast.Name) and isinstance(a.value, ast.Constant) and a.value.value is False}
+    flags_t = {norm(a.targets[0]) for a in walk_no_nested(g.node) if isinstance(a, ast.Assign) and isinstance(a.targets[0], ast.Name) and isinstance(a.value, ast.Constant) and a.value.value is True}
+    for x in sorted(flags_f & flags_t):
+        roles.setdefault(x, "incomplete")
+        break
+    for a in walk_no_nested(g.node):
+        if isinstance(a, ast.AugAssign) and isinstance(a.op, ast.Add) and isinstance(a.target, ast.Name):
+            roles.setdefault(a.target.id, "weight")
+            break
+    g = with_roles(g, roles)
     gcfg = cfg_of(g)
     opt = [n for n in gcfg.nodes if isinstance(n.ast, ast.Assign) and norm(n.ast.value).endswith("SOLVED_OPTIMALLY")]
     lit_opt = [c for c in walk_no_nested(g.node) if isinstance(c, ast.Call) and call_name(c) == "PlanGenerationResult" and c.args and norm(c.args[0]).endswith("SOLVED_OPTIMALLY")]
